@@ -24,7 +24,8 @@ pub struct C05;
 
 const BUDGET: u64 = 400_000;
 
-const C05_KINDS: [&str; 9] = [
+const C05_KINDS: [&str; 10] = [
+    "guard-never-released",
     "refund-mismatch",
     "charge-out-of-range",
     "accounted-above-limit",
